@@ -1,6 +1,7 @@
 /- Driver handlers for the `aes` stream: residue-buffer models with a recording cipher. -/
 import SevenZ.Driver.Util
 import SevenZ.Model.Aes
+import SevenZ.Model.Crypto
 namespace SevenZ.Driver
 open SevenZ
 
@@ -18,6 +19,10 @@ def aesHandler (op : String) (args : List String) : Option String :=
   | "aes.d", [chunks] => do
     let xs ← parseChunks chunks
     pure (showAes (xs.foldl Impl.aesDecompress {}))
+  | "aes.km", [salt, cs] => do
+    let sb ← if salt = "-" then some [] else parseHex salt
+    let pw ← parseNats cs
+    pure (toHex (Impl.keyMaterial sb pw))
   | _, _ => none
 
 end SevenZ.Driver
